@@ -15,7 +15,7 @@ import time
 from concurrent.futures import ThreadPoolExecutor
 
 import gen_cases
-from common import (HARNESS_BIN, SPEC, WORK, ToolError, build_harness, cache_get, cache_put, log,
+from common import (HARNESS_BIN, SPEC, WORK, ToolError, build_harness, cache_get, cache_put, harness_env, log,
                     read_ndjson, require_ok, seed, tlc, tlc_lines, write_ndjson)
 
 PROPS = ["C01", "C02", "C03", "C04", "C05", "C06", "C07", "C08", "C09", "C10"]
@@ -30,7 +30,7 @@ def drive_and_validate(cases, tag):
     cin = os.path.join(WORK, f"{tag}_cases.ndjson")
     tout = os.path.join(WORK, f"{tag}_trace.ndjson")
     write_ndjson(cin, cases)
-    r = subprocess.run([HARNESS_BIN, "drive", cin, tout], stdout=subprocess.PIPE,
+    r = subprocess.run([HARNESS_BIN], env=harness_env(["drive", cin, tout]), stdout=subprocess.PIPE,
                        stderr=subprocess.PIPE, text=True, timeout=3600)
     if r.returncode != 0:
         raise ToolError(f"harness drive failed rc={r.returncode}: {r.stderr[-2000:]}")
@@ -388,7 +388,7 @@ def _one_tracing_run(args):
     cin = os.path.join(WORK, "tracing", f"case_{k}.ndjson")
     tout = os.path.join(WORK, "tracing", f"trace_{k}.ndjson")
     write_ndjson(cin, [case])
-    r = subprocess.run([HARNESS_BIN, "drive", cin, tout], stdout=subprocess.PIPE,
+    r = subprocess.run([HARNESS_BIN], env=harness_env(["drive", cin, tout]), stdout=subprocess.PIPE,
                        stderr=subprocess.PIPE, text=True, timeout=600)
     if r.returncode != 0:
         raise ToolError(f"harness drive (tracing) failed rc={r.returncode}: {r.stderr[-1500:]}")
